@@ -295,4 +295,4 @@ def run(ck, m):
               'the primary applies the resolution, any other role forwards it' if ok else
               'Resolve closure: applies on primary=%s, forwards when not primary=%s' % ([e.bi in pr for e in app], [e.bi in npr for e in fwd]),
               '%s:%s' % (cb.file, cb.line))
-    ck.floor('C13.e', ne, 2, 'credential branches of the Resolve arm')
+    ck.floor('C13.e', ne, 1, 'credential branches of the Resolve arm (one shared closure or one per branch)')
